@@ -193,6 +193,22 @@ type probeSched struct {
 	// probe schedule legitimately skipped it while it was dead
 	liveNow map[string]string
 	gen     map[string]int
+	pass    map[*Memberlist]*probePass
+}
+
+// probePass tracks one traversal of a prober's member list (from one wrap of its cursor to the
+// next). "Once per pass while membership is stable": in a pass during which the prober's live set
+// (and the order of its list) did not change - from the last probe of the previous pass to the
+// first probe of the next one - every live peer is probed exactly once.
+type probePass struct {
+	lastIdx int
+	lastEp  string
+	prevEp  string // epoch at the last probe of the previous pass ("" = there was none)
+	ep0     string
+	order   string
+	live    []string
+	stable  bool
+	seen    map[string]int
 }
 
 func (ps *probeSched) step(cx *clusterRun) {
@@ -283,6 +299,10 @@ func (ps *probeSched) onTap(r *tapRec) {
 				isLive = true
 			}
 		}
+		ps.passCheck(S, pg.Node, ep, live, isLive)
+		if ps.bad {
+			return
+		}
 		if !isLive {
 			continue // a probe decided just before its target died: not part of the stable-set window
 		}
@@ -303,6 +323,51 @@ func (ps *probeSched) onTap(r *tapRec) {
 				}
 			}
 			ps.c.Reach("probe_window_checked")
+		}
+	}
+}
+
+// passCheck runs on the prober's own goroutine (the tap is called from its transport write), so
+// reading probeIndex is race-free: only probe() writes it.
+func (ps *probeSched) passCheck(S *SimNode, target, ep string, live []string, isLive bool) {
+	if ps.pass == nil {
+		ps.pass = map[*Memberlist]*probePass{}
+	}
+	idx := S.m.probeIndex
+	S.m.nodeLock.RLock()
+	order := ""
+	for _, x := range S.m.nodes {
+		order += x.Name + ","
+	}
+	S.m.nodeLock.RUnlock()
+	st := ps.pass[S.m]
+	if st == nil || idx <= st.lastIdx {
+		if st != nil && st.stable && st.prevEp == st.ep0 && ep == st.ep0 && len(st.live) >= 1 {
+			for _, x := range st.live {
+				if st.seen[x] != 1 {
+					ps.bad = true
+					ps.c.Violate("probe-pass-missed-peer", "", S.name, "%s: live set %v and list order unchanged over a whole pass of its probe cursor, yet peer %s was probed %d times in it (probed: %v)", S.name, st.live, x, st.seen[x], st.seen)
+					return
+				}
+			}
+			ps.c.Reach("probe_pass_exactly_once_checked")
+		}
+		prev := ""
+		if st != nil {
+			prev = st.lastEp
+		}
+		st = &probePass{prevEp: prev, ep0: ep, order: order, live: append([]string(nil), live...), stable: true, seen: map[string]int{}}
+		ps.pass[S.m] = st
+	}
+	if ep != st.ep0 || order != st.order || !isLive {
+		st.stable = false
+	}
+	st.lastIdx, st.lastEp = idx, ep
+	if st.stable {
+		st.seen[target]++
+		if st.seen[target] > 1 {
+			ps.bad = true
+			ps.c.Violate("probe-pass-duplicate", "", S.name, "%s probed %s twice within one pass over an unchanged member list (live %v)", S.name, target, st.live)
 		}
 	}
 }
